@@ -101,6 +101,17 @@ def kmFootprint (zm z0 ws ustar L sigmaV res gx gy mx my : R) (wd : Option R) : 
 def kmZ0 (zm ws ustar L : R) : R :=
   zm * F.exp (kmPsiM F zm L - vonKarman * ws / ustar)
 
+/-- `estimateZ0` smoothing: the direction of an observation as seen from the 1-degree bin `kk`
+(directions near north are unwrapped towards the bin) -/
+def z0Wrap (kk : Nat) (wd : R) : R :=
+  if kk < 90 then (if 270.0 < wd then wd - 360.0 else wd)
+  else if kk > 270 then (if wd < 90.0 then wd + 360.0 else wd)
+  else wd
+
+/-- membership of an observation in the smoothing window of bin `kk` (half width `h`) -/
+def z0InWindow (kk : Nat) (h wd : R) : Bool :=
+  decide (F.natCast kk - h ≤ z0Wrap kk wd) && decide (z0Wrap kk wd < F.natCast kk + 1.0 + h)
+
 end
 
 end BLDFM
